@@ -120,7 +120,9 @@ theorem takeSnapshot_sameProto (c : Cfg) (s s' : State) (h : takeSnapshot c s = 
     · cases h
   · split at h
     · cases h; constructor <;> rfl
-    · cases h
+    · split at h
+      · cases h; constructor <;> rfl
+      · cases h
 
 theorem yieldItem_sameProto (c : Cfg) (s : State) (r : Res) (b : Nat) : SameProto s (yieldItem c s r b).1 := by
   unfold yieldItem
